@@ -532,5 +532,108 @@ def pull (H : Hasher) (depth limit : Nat) (full : Bool) (πr πp : List Nat) (r 
     Bool × List Nat × List (Nat × RV) × NMap RV :=
   pullWith currentRespOrder H currentSortBucket currentStream depth limit full πr πp r p
 
+/-! ## `AntiEntropyManager` as a state machine (session 3)
+
+  The message protocol with its bookkeeping: digests are MESSAGES (they carry the sender's replica
+  id and generation and may be processed late), a request names the buckets the requester found
+  divergent when it processed the peer's digest, the responder answers from its CURRENT state and
+  the requester merges into its CURRENT state — whatever happened in between. -/
+
+/-- a `StateDigest` as sent: with `replica_id` and `generation` -/
+structure TDigest where
+  rid : Nat
+  generation : Nat
+  d : StateDigest
+  deriving DecidableEq, Repr, Inhabited
+
+/-- `AntiEntropyManager` (`pending_requests` / `pending_responses` have no producer in src/: they
+    stay empty and are not modelled) -/
+structure Mgr where
+  rid : Nat
+  generation : Nat
+  depth : Nat          -- `config.merkle_tree_depth` as configured
+  limit : Nat          -- `config.max_keys_per_sync` as configured
+  interval : Nat       -- `config.sync_interval_ms`
+  autoSync : Bool      -- `config.auto_sync_on_heal`
+  peerDigests : NMap TDigest
+  divergentPeers : NSet
+  lastSync : NMap Nat
+  deriving DecidableEq, Repr, Inhabited
+
+def Mgr.new (rid depth limit interval : Nat) (autoSync : Bool) : Mgr :=
+  { rid := rid, generation := 0, depth := depth, limit := limit, interval := interval, autoSync := autoSync,
+    peerDigests := [], divergentPeers := [], lastSync := [] }
+
+/-- `on_local_write` -/
+def Mgr.onLocalWrite (m : Mgr) : Mgr := { m with generation := m.generation + 1 }
+
+/-- `generate_digest(keys)` -/
+def Mgr.generateDigest (H : Hasher) (m : Mgr) (π : List Nat) (s : NMap RV) : TDigest :=
+  ⟨m.rid, m.generation, digest H (effectiveDepth currentDepthBound m.depth) π s⟩
+
+/-- `current_time - last_sync >= sync_interval_ms` on `u64`: a clock that went backwards
+    underflows (a panic with overflow checks, a wrap-around — "due" — without) -/
+inductive Due where
+  | yes | no | underflow
+  deriving DecidableEq, Repr
+
+def dueAt (interval last now : Nat) : Due :=
+  if now < last then .underflow else if now - last ≥ interval then .yes else .no
+
+/-- `should_sync(peer, current_time)` -/
+def Mgr.shouldSync (m : Mgr) (peer now : Nat) : Due :=
+  match m.lastSync.get peer with
+  | some t => dueAt m.interval t now
+  | none => .yes
+
+/-- `process_peer_digest(peer_digest, our_digest)` -/
+def Mgr.processPeerDigest (m : Mgr) (peer ours : TDigest) : Mgr × Option (List Nat) :=
+  if differsFrom ours.d peer.d then
+    ({ m with divergentPeers := NSet.insert peer.rid m.divergentPeers, peerDigests := NMap.insert peer.rid peer m.peerDigests },
+      some (divergentBuckets ours.d peer.d))
+  else
+    ({ m with divergentPeers := m.divergentPeers.filter (fun x => x != peer.rid), peerDigests := NMap.insert peer.rid peer m.peerDigests },
+      none)
+
+/-- `SyncRequest` -/
+structure Request where
+  fromR : Nat
+  toR : Nat
+  digest : TDigest
+  buckets : Option (List Nat)
+  deriving DecidableEq, Repr, Inhabited
+
+/-- `create_sync_request(peer, our_digest, buckets, current_time)` -/
+def Mgr.createSyncRequest (m : Mgr) (peer : Nat) (ours : TDigest) (buckets : Option (List Nat)) (now : Nat) :
+    Mgr × Request :=
+  ({ m with lastSync := NMap.insert peer now m.lastSync }, ⟨m.rid, peer, ours, buckets⟩)
+
+/-- `SyncResponse` (the deltas as `(key, value)`; `source_replica` of every delta is `fromR`) -/
+structure Response where
+  fromR : Nat
+  deltas : List (Nat × RV)
+  digest : TDigest
+  deriving DecidableEq, Repr, Inhabited
+
+/-- `handle_sync_request(request, our_keys)`: answer from the CURRENT state, then
+    `process_peer_digest(request.digest, &our_digest)` -/
+def Mgr.handleSyncRequest (H : Hasher) (m : Mgr) (req : Request) (π : List Nat) (s : NMap RV) : Mgr × Response :=
+  let ours := m.generateDigest H π s
+  let deltas := responseKeysWith currentRespOrder H currentStream (effectiveDepth currentDepthBound m.depth)
+    (effectiveLimit currentLimitAtLeastOne m.limit) π s req.buckets
+  ((m.processPeerDigest req.digest ours).1, ⟨m.rid, deltas, ours⟩)
+
+/-- `on_partition_healed(peer)` -/
+def Mgr.onPartitionHealed (m : Mgr) (peer : Nat) : Mgr :=
+  if m.autoSync then { m with divergentPeers := NSet.insert peer m.divergentPeers, lastSync := NMap.erase peer m.lastSync }
+  else m
+
+/-- `peers_needing_sync(current_time)` as a SET (the divergent peers come out of a `HashSet`):
+    the divergent peers and every peer whose last request is at least `sync_interval_ms` old;
+    `none` = the `u64` subtraction underflows for some peer -/
+def Mgr.peersNeedingSync (m : Mgr) (now : Nat) : Option NSet :=
+  if m.lastSync.any (fun p => decide (now < p.2)) then none
+  else some ((m.lastSync.filter (fun p => decide (now - p.2 ≥ m.interval))).foldl (fun acc p => NSet.insert p.1 acc) m.divergentPeers)
+
 end AE
 end RedisVerif
